@@ -5,7 +5,7 @@ From Coq Require Import ZArith Reals List Bool Lia Lra.
 From Flocq Require Import Core.
 From J2O Require Import PyLib Dtype.
 Import ListNotations.
-Open Scope Z_scope.
+Local Open Scope Z_scope.
 
 (* ---------------------------------------------------------------- values *)
 Inductive fval := FNaN | FInf (neg : bool) | FZero (neg : bool) | FFin (x : R).
